@@ -576,16 +576,16 @@ theorem edgesSubset_sound (t i : Graph) (h : edgesSubset t i = true) :
     ∀ u v, Edge t u v → Edge i u v :=
   RotoV.Tarjan.edgesSubset_sound t i h
 
-/-- If the collected graph `i` has every edge of the real structure `t` (same
-kinds, every real constant is a key), then a constant that really reads a
-context variable — directly, as a method receiver, through constants, through
-any chain of functions — makes `compile` reject, with nothing evaluated. -/
-theorem complete_edges_reject_context (t i : Graph) (hsub : edgesSubset t i = true)
+/-- If every dependency of the real structure `t` is an edge of the collected
+graph `i` (same kinds, every real constant is a key), then a constant that
+really reads a context variable — directly, as a method receiver, through
+constants, through any chain of functions — makes `compile` reject, with
+nothing evaluated. -/
+theorem real_edges_reject_context (t i : Graph) (hedge : ∀ a b, Edge t a b → Edge i a b)
     (hkind : ∀ x, t.kind x = i.kind x) (hkeys : ∀ c, c ∈ t.keys → c ∈ i.keys)
     (hc : ∃ c, c ∈ t.keys ∧ t.kind c = .const ∧ UsesCtx t c) :
     ∃ o, compile i = .ok (.rejected o []) := by
   obtain ⟨c, hck, hcc, hu⟩ := hc
-  have hedge := RotoV.Tarjan.edgesSubset_sound t i hsub
   have hu' : UsesCtx i c := hu.mono hedge (fun x hx => by rw [← hkind x]; exact hx)
   obtain ⟨comps, ht⟩ := tarjan_total i
   cases hs : selfEdge i i.edges with
@@ -597,6 +597,14 @@ theorem complete_edges_reject_context (t i : Graph) (hsub : edgesSubset t i = tr
       obtain ⟨c', h'⟩ := ((context_rejected i comps ht hs hm).1).1
         ⟨c, hkeys c hck, by rw [← hkind c]; exact hcc, hu'⟩
       exact ⟨_, h'⟩
+
+/-- the same with the executable comparison the driver runs on every generated
+program (`edgesSubset`, what `c14 tie` decides) as the hypothesis -/
+theorem complete_edges_reject_context (t i : Graph) (hsub : edgesSubset t i = true)
+    (hkind : ∀ x, t.kind x = i.kind x) (hkeys : ∀ c, c ∈ t.keys → c ∈ i.keys)
+    (hc : ∃ c, c ∈ t.keys ∧ t.kind c = .const ∧ UsesCtx t c) :
+    ∃ o, compile i = .ok (.rejected o []) :=
+  real_edges_reject_context t i (RotoV.Tarjan.edgesSubset_sound t i hsub) hkind hkeys hc
 
 /-- likewise for cycles: a real cycle through a constant is a cycle of the
 collected graph, hence rejected (no certificate needed any more: `cycle_rejected_semantic`) -/
